@@ -115,6 +115,7 @@ class Live(object):
         self.dev = 0
         self.first_ctx = None
         self.last_req = -1
+        self.captured = None
         self._wrap_dev_client()
         if self.v13:
             alg = SUITES[cfg['cipher']]
@@ -188,6 +189,9 @@ class Live(object):
             from tlslite.messages import Certificate
             from tlslite.constants import CertificateType
             d = live.dev
+            if msgs and isinstance(msgs[0], Certificate) and len(msgs) == 3 and live.captured is None:
+                # remember the first answer (only usable for a verbatim replay if it was honest)
+                live.captured = (list(msgs), d == 0 and bytes(msgs[0].certificate_request_context) == bytes(live.first_ctx))
             if d and msgs and isinstance(msgs[0], Certificate) and len(msgs) == 3:
                 cert, cv, fin = msgs
                 real = bytes(cert.certificate_request_context)
@@ -210,6 +214,7 @@ class Live(object):
             return orig_send(msgs)
         c._handle_pha = handle_pha
         c._sendMsgs = send_msgs
+        self.replay_send = orig_send
         self.ctx_bytes = ctx_bytes
 
     # -- observation helpers
@@ -400,6 +405,8 @@ class Live(object):
         elif k == 'OSetDev':
             self.dev = op[1]
             code, data, desc = 0, b'', 'ok'
+        elif k == 'OReplayPha':
+            code, data, desc = self.gen_op(self.replay_send(self.captured[0]))
         elif k == 'OInject':
             code, data, desc = self.gen_op(conn._sendMsg(self.inject_msg(op[1]), update_hashes=False))
         else:
